@@ -17,12 +17,10 @@ ops
         relation/collection, `o` = lives in the overlay layer of an overlay world.  answer = ids returned by FindFeatures in iteration order.
         model: findFeatures (token pre-filter, then Matches).  predicate: answer = {indexed ids with m}, no
         duplicates (`miss` / `invent` / `duplicate`).
-        known classes of `miss` (hypothesis of `find_exact` fails, i.e. Matches true but coverings disjoint):
+        known class of `miss` (hypothesis of `find_exact` fails: Matches true but coverings disjoint):
           `tolerance-outside-covering`  point query vs path feature / polyline query vs point feature (1 mm rule)
-          `self-without-geometry`       intersects-feature naming a feature without geometry, the feature itself
-        and one class where the base layer of an overlay world compiles the query without seeing the named feature:
-          `intersects-feature-across-overlay`  intersects-feature naming a feature of the overlay layer (flag `o`),
-                                        missed feature in the base layer
+        kind `might` (b6.MightIntersect, whose Matches is constantly true): the answer must contain every indexed
+        feature with `m` whose covering meets Q (`might-miss`), and equals that set in the model.
 -/
 open B6.Driver B6.Model.Cells
 namespace B6.Driver.C04
@@ -85,12 +83,10 @@ def parseFeats (s : String) : Option (List Feat) :=
 def Feat.has (f : Feat) (c : Char) : Bool := f.flags.contains c
 
 /-- the recorded classes of missed features (see the header) -/
-def missClass (kind : String) (q : List Cell) (namedInOverlay : Bool) (f : Feat) : Option String :=
-  if kind.startsWith "feature-" && namedInOverlay && !f.has 'o' then some "intersects-feature-across-overlay"
-  else if coveringsMeet f.cov q then none
+def missClass (kind : String) (q : List Cell) (f : Feat) : Option String :=
+  if coveringsMeet f.cov q then none
   else if (kind == "point" || kind == "feature-point") && f.has 'l' then some "tolerance-outside-covering"
   else if (kind == "polyline" || kind == "feature-path") && f.has 'p' then some "tolerance-outside-covering"
-  else if kind == "feature-none" && f.has 's' && q.isEmpty then some "self-without-geometry"
   else none
 
 def hasDup : List String → Bool
@@ -129,9 +125,13 @@ def step (_ : Unit) (op impl : String) : Unit × Verdict :=
       let missed := indexed.filter fun f => f.has 'm' && !got.contains f.id
       if hasDup got then ((), .propfail "duplicate")
       else if !invented.isEmpty then ((), .propfail "invent")
+      else if kind == "might" then
+        -- MightIntersect: Matches is constant, the result is the candidate set itself
+        if !(modelRes.all (got.contains ·)) then ((), .propfail "might-miss")
+        else if sameSet got modelRes then ((), .ok)
+        else ((), .diff (renderWords modelRes))
       else if !missed.isEmpty then
-        let namedInOverlay := feats.any fun f => f.has 's' && f.has 'o'
-        let classes := missed.map (missClass kind Q namedInOverlay)
+        let classes := missed.map (missClass kind Q)
         match classes with
         | some c :: _ =>
           -- every missed feature must be in a recorded class; the first one names the line
